@@ -78,9 +78,8 @@ def oracle_a(camp, p, conforming):
             camp.fail("C07|A|gap-or-overlap", "pop %d starts with %d tokens left, expected %d" % (k, rec["before"], total - pos), case)
             break
         if rec["stop"] > rec["before"]:
-            camp.fail("C07|A|past-the-end|%s" % rec["rule"], "pop %d consumes %d of %d remaining tokens" % (k, rec["stop"], rec["before"]), case)
-            break
-        pos += rec["stop"]
+            camp.count("pop-longer-than-the-remaining-tokens(benign)")
+        pos += min(rec["stop"], rec["before"])
         if rec["hist"] > prev_hist:
             matched += 1
         else:
@@ -147,17 +146,25 @@ def boundaries(p):
     return out
 
 
-def oracle_b(camp, p, d, per_prog, cli_every, state):
+def oracle_b(camp, p, d, per_prog, cli_every, state, avoid_line=None, tag="conforming"):
     bs = boundaries(p)
+    if avoid_line is not None:
+        pass   # (intra-line operators keep the statement boundaries of the conforming original: every boundary is used)
+        # kinds of lines whose neighbourhood is not a statement boundary any more once the file is damaged
+        if p.variant[0] in ("F06", "S07", "S08", "S12", "S13", "P13", "P14", "E06", "X02", "F11", "F12", "D10", "T05", "S11", "S10", "F13", "P05", "D01", "D08"):
+            return
     if not bs:
         return
+    camp.count("B-programs:" + tag)
     picks = [bs[d.int(0, len(bs) - 1)] for _ in range(per_prog)] if per_prog else bs
     for (i, depth, closed, cls) in picks:
-        frags = [d.choice(FRAGMENTS)] if per_prog else FRAGMENTS
+        frags = [d.choice(FRAGMENTS)] if per_prog else [d.choice(FRAGMENTS), d.choice(FRAGMENTS)]
         for frag in frags:
             q = p.copy()
             q.lines.insert(i, Line(TABS(depth) + [Lx(frag, "garbage")], "garbage", depth, -1))
             judge(camp, p.name, q.text, frag, cls, closed, "mid", state, cli_every)
+    if avoid_line is not None:
+        return
     # last line variants
     for frag in ([d.choice(FRAGMENTS)] if per_prog else FRAGMENTS):
         for semi in (True, False):
@@ -167,6 +174,39 @@ def oracle_b(camp, p, d, per_prog, cli_every, state):
                     continue
                 text = p.text + f + ("\n" if nl else "")
                 judge(camp, p.name, text, f, "last-line" + ("" if nl else "-nonl"), True, "eof", state, cli_every)
+
+
+FOCUS_OPS = ("S05", "S05b", "K03", "D03", "P02", "O10", "O11", "S09", "D02")
+
+
+def focused(camp, p, d, state, cli_every):
+    """every site of the operators that reshape a statement without moving line breaks: the fragment goes right behind the
+    edited line, where a rule that reads past the end of its line would swallow it"""
+    from .. import operators
+    for oid in FOCUS_OPS:
+        o = operators.OPS[oid]
+        if p.ftype not in o["ftypes"]:
+            continue
+        seen = {}
+        for cls, ap in o["fn"](p):
+            if seen.get(cls, 0) >= 2:
+                continue
+            seen[cls] = seen.get(cls, 0) + 1
+            q = p.copy()
+            li = ap(q)
+            if li is None or li < 0:
+                continue
+            r0 = adapters.analyse(q.name, q.text)
+            if r0.status not in ("OK", "Error"):
+                continue
+            q.variant = (oid, cls, li)
+            for (i, depth, closed, bcls) in boundaries(q):
+                if i == li + 1 and closed:
+                    z = q.copy()
+                    frag = d.choice(FRAGMENTS)
+                    z.lines.insert(i, Line(TABS(depth) + [Lx(frag, "garbage")], "garbage", depth, -1))
+                    camp.count("B-focused:" + oid)
+                    judge(camp, p.name, z.text, frag, "after-%s-%s" % (oid, cls), True, "mid", state, cli_every)
 
 
 def judge(camp, name, text, frag, cls, closed, where, state, cli_every):
@@ -200,7 +240,8 @@ def judge(camp, name, text, frag, cls, closed, where, state, cli_every):
 
 @composite
 def case(d):
-    return family.member_of(d, violating=0.4), d
+    # operators that change how a line is split into statements are over-sampled
+    return family.member_of(d, violating=0.45, prefer=("S05", "S05b", "S07", "S08", "S13", "K02", "K03", "O10", "O11", "D03", "P02")), d
 
 
 def shard(seed, n, per_prog, cli_every):
@@ -217,6 +258,14 @@ def shard(seed, n, per_prog, cli_every):
         oracle_a(camp, p, conforming)
         if conforming:
             oracle_b(camp, p, d, per_prog, cli_every, state)
+        else:
+            # the garbage half of the property also covers violating programs; boundaries next to the violating line are
+            # left out (the damage there may legitimately merge with the fragment), and the base file must reach a verdict
+            r0 = adapters.analyse(p.name, p.text)
+            if r0.status in ("OK", "Error"):
+                oracle_b(camp, p, d, max(per_prog // 2, 2) if per_prog else 0, cli_every, state, avoid_line=p.variant[2], tag="violating")
+        if conforming and d.bool(0.3):
+            focused(camp, p, d, state, cli_every)
         if len(camp.samples) < 3 and state["k"] % 13 == 1:
             camp.samples.append({"name": p.name, "statements_by_model": expected_statements(p), "boundaries": len(boundaries(p))})
 
@@ -227,6 +276,8 @@ def shard(seed, n, per_prog, cli_every):
 def replay(pid, case):
     camp = core.Campaign()
     if case.get("mode") == "B":
+        if case["frag"] not in case["text"].split("\n") and ("\t" + case["frag"]) not in case["text"].replace("\t\t", "\t").replace("\t\t", "\t"):
+            return []   # (a shrunk text that lost the fragment is outside the case's domain)
         judge(camp, case["name"], case["text"], case["frag"], case["class"], case["closed"], "replay", {"k": 0}, 1)
     else:
         class P:
@@ -237,7 +288,7 @@ def replay(pid, case):
 
 def run(pid, tier, seed):
     t0 = time.time()
-    shards, n, per_prog, cli_every = (16, 40, 6, 25) if tier == "quick" else (16, 400, 0, 200)
+    shards, n, per_prog, cli_every = (16, 40, 6, 25) if tier == "quick" else (16, 200, 0, 200)
     camp = core.Campaign()
     for name, rc in core.regress_cases(pid):
         for k, what in replay(pid, rc["case"]):
